@@ -200,6 +200,24 @@ func checkTraversal(c *explore.Ctx, roots []ast.Node, list bool, maxAll int, wit
 				}
 			}
 		}
+		// a traversal aborted by a panicking visitor must not influence later traversals
+		for i := 0; i < n && i < 6; i++ {
+			k := 0
+			explore.Try(func() {
+				ast.Inspect(root, func(ast.Node) bool {
+					if k == i {
+						panic("abort traversal")
+					}
+					k++
+					return true
+				})
+			})
+			if sig, d := checkWalkOnce(root, vs, nil, ""); sig != "" {
+				report("C17/after-aborted-walk/"+strings.TrimPrefix(sig, "C17/"), "after a traversal aborted by a panic in the visitor at node "+fmt.Sprint(i)+": "+d)
+				break
+			}
+			c.Count("walks", 2)
+		}
 		// Inspect with false at node i == prune {i}; Preorder stops after i nodes
 		for i := 0; i <= n; i++ {
 			k := 0
